@@ -40,6 +40,11 @@ fn main() {
                 }
             }
         }
+        for t in [TKind::MmioModern, TKind::Pci] {
+            if doc.part == format!("capacity-under-resize:{}", t.name()) {
+                std::process::exit(vlab::replay::replay_dfs(&doc, &move || vlab::c13::run_tear_as("C14", "capacity", vlab::drivers::Kind::Blk, t)));
+            }
+        }
         eprintln!("unknown part {}", doc.part);
         std::process::exit(2);
     }
@@ -51,6 +56,14 @@ fn main() {
         let mut cfg = DfsConfig::new(&part, dev);
         cfg.wall_cap = Duration::from_secs(if args.tier == Tier::Quick { 40 } else { 1500 });
         let st = dfs::explore(&cfg, &move || c14::run(t, d, nb));
+        c.add_dfs(&part, &st);
+    }
+    // Capacity under device-side resizes: whatever the placement of up to 3 configuration updates
+    // between the driver's individual register reads, capacity() is a value the device exposed.
+    for t in [TKind::MmioModern, TKind::Pci] {
+        let part = format!("capacity-under-resize:{}", t.name());
+        let cfg = DfsConfig::new(&part, 3);
+        let st = dfs::explore(&cfg, &move || vlab::c13::run_tear_as("C14", "capacity", vlab::drivers::Kind::Blk, t));
         c.add_dfs(&part, &st);
     }
     // A queue-full of outstanding requests (5 direct, 16 indirect), any completion order, twice.
